@@ -117,6 +117,9 @@ class Case:
     """one scripted case: `lines` go to the harness; `hints` = connections whose recv sizes are taken
     from the harness log (otherwise the driver predicts them); meta describes it for coverage"""
     def __init__(self, name, lines, hints=(), relaxed=False, meta=None):
+        lines = list(lines)
+        if not lines or lines[0].split()[:1] != ["case"]:
+            lines.insert(0, "case " + name)       # every script carries its own marker line (outputs are split by it)
         self.name, self.lines, self.hints, self.relaxed, self.meta = name, lines, set(hints), relaxed, meta or {}
 
 
@@ -507,6 +510,33 @@ def split_ops(lines):
         elif out:
             out[-1][1].append(l)
     return out
+
+
+def tag_case_lines(cases):
+    """the lines of a batch as they are sent: the `case` line of the k-th script is tagged `case @<k>@<name>` so that the
+    output of every script is found by its own marker (never by position / by counting)"""
+    out = []
+    for k, cs in enumerate(cases):
+        w = cs.lines[0].split()
+        out.append("case @%d@%s" % (k, w[1] if len(w) > 1 else cs.name))
+        out += cs.lines[1:]
+    return out
+
+
+def split_by_case(ops):
+    """{k: [(op, outs)…]} keyed by the tag of the `case` marker echoed by harness / driver; blocks without a tag are
+    returned under None (they belong to no script of the batch)"""
+    d, cur = {}, None
+    for (op, outs) in ops:
+        if op and op[0] == "case":
+            m = re.match(r"@(\d+)@", op[1]) if len(op) > 1 else None
+            key = int(m.group(1)) if m else None
+            cur = d.setdefault(key, [])
+            if key is not None and cur:
+                cur = d[key] = []          # a repeated tag: keep the last block (cannot happen with tag_case_lines)
+        if cur is not None:
+            cur.append((op, outs))
+    return d
 
 
 def kvs(words):
@@ -1160,24 +1190,27 @@ class Spec:
 
     # -- one batch of cases through harness, driver, oracle
     def run_cases(self, cases, failures, stats):
-        lines = [l for cs in cases for l in cs.lines]
-        hout, hrc, herr = vlib.run_lines(self.harness, lines, timeout=1500)
-        hops = split_ops(hout)
-        # split per case
-        per, cur = [], None
-        for (op, outs) in hops:
-            if op and op[0] == "case":
-                cur = []; per.append(cur)
-            if cur is not None:
-                cur.append((op, outs))
-        if hrc != 0 or len(per) != len(cases):
-            k = max(len(per) - 1, 0)
-            bad = cases[min(k, len(cases) - 1)]
+        hout, hrc, herr = vlib.run_lines(self.harness, tag_case_lines(cases), timeout=1500)
+        hby = split_by_case(split_ops(hout))
+        # every script is judged on the output block that carries ITS marker; scripts without a block were not run
+        # (the harness aborted in an earlier one): the last script that has a block is the one that was executing
+        have = [k for k in range(len(cases)) if k in hby]
+        if hrc != 0:
+            bad = cases[have[-1]] if have else cases[0]
             failures.append(vlib.Failure("sanitizer", "upg: harness aborted (rc=%d) kind=%s" % (hrc, bad.meta.get("kind")),
                                          herr[-2500:], bad.lines, "upg"))
-            cases = cases[:k]; per = per[:k]
+            have = have[:-1]
+        elif len(have) != len(cases) or None in hby:
+            miss = [k for k in range(len(cases)) if k not in hby]
+            bad = cases[miss[0]] if miss else cases[0]
+            failures.append(vlib.Failure("diff", "upg: harness output without / outside a case marker",
+                                         "scripts without output block: %s; output outside any script: %s"
+                                         % ([cases[k].name for k in miss[:5]], None in hby), bad.lines, "upg"))
+        stats["not_run_after_abort"] = stats.get("not_run_after_abort", 0) + (len(cases) - len(have) - (1 if hrc != 0 else 0))
+        cases = [cases[k] for k in have]
+        per = [hby[k] for k in have]
         # driver input: same lines + recv-size hints where the model is not predictive
-        dlines = []
+        dcases = []
         hcanon = []
         for cs, ops in zip(cases, per):
             seq, wire, recvs, glob, hobjs = canon_harness(ops)
@@ -1194,14 +1227,10 @@ class Spec:
                 out.append(l)
                 if l == "start":
                     out += ins
-            dlines += out
-        mout, mrc, merr = vlib.run_lines(self.driver, dlines, timeout=1500)
-        mper, cur = [], None
-        for (op, outs) in split_ops(mout):
-            if op and op[0] == "case":
-                cur = []; mper.append(cur)
-            if cur is not None:
-                cur.append((op, outs))
+            dcases.append(Case(cs.name, out))
+        mout, mrc, merr = vlib.run_lines(self.driver, tag_case_lines(dcases), timeout=1500)
+        mby = split_by_case(split_ops(mout))
+        mper = [mby.get(k) for k in range(len(cases))]
         for idx, (cs, ops) in enumerate(zip(cases, per)):
             stats["cases"] += 1
             stats["kind:" + cs.meta.get("kind", "?")] = stats.get("kind:" + cs.meta.get("kind", "?"), 0) + 1
@@ -1227,7 +1256,7 @@ class Spec:
                         stats["extra_len:%d" % (len(it.split("=", 1)[1]) // 2 if not it.endswith("-") else 0)] = \
                             stats.get("extra_len:%d" % (len(it.split("=", 1)[1]) // 2 if not it.endswith("-") else 0), 0) + 1
             derr = None
-            if idx < len(mper):
+            if mper[idx] is not None:
                 mseq, mwire, mglob, mobjs = canon_driver(mper[idx])
                 if "unsupported" in " ".join(mglob):
                     stats["driver_unsupported"] = stats.get("driver_unsupported", 0) + 1
@@ -1271,19 +1300,32 @@ class Spec:
                                              derr, cs.lines, "upg"))
 
     def run_tls(self, cases, failures, stats):
-        lines = [l for cs in cases for l in cs.lines]
+        lines = tag_case_lines(cases)
         hout, hrc, herr = vlib.run_lines(self.tls_harness, lines, timeout=1500)
         mout, mrc, merr = vlib.run_lines(self.driver, lines, timeout=1500)
         mout = [l for l in mout if not l.startswith("# ") and l != "#"]      # the driver echoes the operation
-        pos = 0
-        for cs in cases:
+
+        def blocks(out):       # {k: output lines of script k}, found by the tagged `case` line each script prints
+            d, cur = {}, None
+            for l in out:
+                m = re.match(r"case @(\d+)@", l)
+                if m:
+                    cur = d[int(m.group(1))] = []
+                if cur is not None:
+                    cur.append(l)
+            return d
+        hb, mb = blocks(hout), blocks(mout)
+        for k, cs in enumerate(cases):
             n = len(cs.lines)
-            ho, mo = hout[pos:pos + n], mout[pos:pos + n]
-            pos += n
+            if k not in hb:
+                if hrc == 0:
+                    failures.append(vlib.Failure("diff", "upgtls: no output block for a script", cs.name, cs.lines, "upgtls"))
+                continue                      # not run: the harness aborted in an earlier script (reported there)
+            ho, mo = hb[k], mb.get(k, [])
             stats["tls_cases"] = stats.get("tls_cases", 0) + 1
             if len(ho) < n:
                 failures.append(vlib.Failure("sanitizer", "upgtls: harness aborted (rc=%d)" % hrc, herr[-2500:], cs.lines, "upgtls"))
-                break
+                continue
             for l, o in zip(cs.lines, ho):
                 if l.startswith("visit"):
                     k = kvs(o.split())
@@ -1335,8 +1377,19 @@ class Spec:
         ncorp = 0
         if os.path.isdir(cdir):
             for f in sorted(os.listdir(cdir)):
-                ls = [l for l in open(os.path.join(cdir, f)).read().splitlines() if l.strip() and not l.startswith("//")]
-                cases.append(Case("corpus-" + f, ls, hints=range(8), meta={"kind": "corpus"})); ncorp += 1
+                txt = open(os.path.join(cdir, f)).read()
+                if f.endswith(".json"):       # a stored failure record (replay file): its `input` is the script
+                    try:
+                        r = json.loads(txt)
+                        ls = r.get("input") or (r.get("disagreements") or [{}])[0].get("input") or []
+                    except ValueError:
+                        ls = []
+                    ls = [l for l in ls if isinstance(l, str) and l.strip()]
+                else:
+                    ls = [l for l in txt.splitlines() if l.strip() and not l.startswith("//")]
+                if not ls or ls[0] == "case tok":
+                    continue
+                cases.append(Case("corpus-" + f, ls, hints=range(8), meta={"kind": "corpus", "file": f})); ncorp += 1
         split = gen_split_cases(ctx, ctx.tier)
         pre = gen_refusal_cases(ctx, ctx.tier)
         multi = gen_multi_cases(ctx, ctx.tier)
